@@ -13,11 +13,13 @@ import (
 
 // Hook is a local webhook endpoint collecting the notification records the gateway sends.
 type Hook struct {
-	URL  string
-	mu   sync.Mutex
-	recs []string
-	last time.Time
-	srv  *http.Server
+	URL      string
+	mu       sync.Mutex
+	recs     []string
+	vids     []string // "<event name> <hex key> <version id>" of the records in recs
+	lastVids []string
+	last     time.Time
+	srv      *http.Server
 }
 
 type hookRecord struct {
@@ -28,9 +30,10 @@ type hookRecord struct {
 				Name string `json:"name"`
 			} `json:"bucket"`
 			Object struct {
-				Key  string  `json:"key"`
-				Size int64   `json:"size"`
-				ETag *string `json:"eTag"`
+				Key       string  `json:"key"`
+				Size      int64   `json:"size"`
+				ETag      *string `json:"eTag"`
+				VersionId *string `json:"versionId"`
 			} `json:"object"`
 		} `json:"s3"`
 	} `json:"Records"`
@@ -54,6 +57,11 @@ func StartHook() (*Hook, error) {
 					et = *x.S3.Object.ETag
 				}
 				h.recs = append(h.recs, fmt.Sprintf("%s %s %s %d %s", x.EventName, hx(x.S3.Bucket.Name), hx(x.S3.Object.Key), x.S3.Object.Size, hx(et)))
+				vid := ""
+				if x.S3.Object.VersionId != nil {
+					vid = *x.S3.Object.VersionId
+				}
+				h.vids = append(h.vids, fmt.Sprintf("%s %s %s", x.EventName, hx(x.S3.Object.Key), vid))
 			}
 			h.last = time.Now()
 			h.mu.Unlock()
@@ -66,6 +74,13 @@ func StartHook() (*Hook, error) {
 }
 
 func (h *Hook) Close() { h.srv.Close() }
+
+// LastVids: event name, key and version id of the records the last Drain returned.
+func (h *Hook) LastVids() []string {
+	h.mu.Lock()
+	defer h.mu.Unlock()
+	return h.lastVids
+}
 
 // Drain waits until no record has arrived for `quiet` (at most `max`) and returns the records
 // received since the last Drain, sorted.
@@ -84,6 +99,7 @@ func (h *Hook) Drain(quiet, max time.Duration) []string {
 	h.mu.Lock()
 	out := h.recs
 	h.recs = nil
+	h.lastVids, h.vids = h.vids, nil
 	h.mu.Unlock()
 	sort.Strings(out)
 	return out
